@@ -14,13 +14,24 @@ HUGE = 1 << 24  # beyond this float32 cannot represent every integer
 
 def gen_instance(rng, *, max_jobs=4, max_machines=4, max_ops=4, flexible=None,
                  zero=None, regular=None, recirc=None, positive=None,
-                 classic=None, degenerate=True, min_jobs=1, max_dur=9, huge=0.0):
+                 classic=None, degenerate=True, min_jobs=1, max_dur=9, huge=0.0, sparse_ids=0.0, large=0.0):
     """Draws an instance spec.  Every ``None`` switch is drawn per call.
+    `large`: probability of a 6-10 jobs x up to 8 machines x up to 10 operations instance (scale effects).
+    `sparse_ids`: probability of machine ids with gaps (unused machines, large maximum id).
     `huge`: probability that the time unit is so fine that durations lie
     around 2**24 (e.g. microseconds), where a float32 detour loses integers."""
+    if large and rng.random() < large:
+        max_jobs, max_machines, max_ops, min_jobs, degenerate = 10, 8, 10, 6, False
     spec = _gen_instance(rng, max_jobs=max_jobs, max_machines=max_machines, max_ops=max_ops, flexible=flexible, zero=zero,
                          regular=regular, recirc=recirc, positive=positive, classic=classic, degenerate=degenerate,
                          min_jobs=min_jobs, max_dur=max_dur)
+    if sparse_ids and rng.random() < sparse_ids:
+        # machine ids with gaps and a large maximum: many machines that no operation uses
+        stride, off = rng.randint(2, 4), rng.randint(0, 3)
+        for job in spec["jobs"]:
+            for op in job:
+                op[0] = [m * stride + off for m in op[0]]
+        spec["shape"] = "sparse_machine_ids"
     if huge and rng.random() < huge:
         k = 0
         for job in spec["jobs"]:
